@@ -1,5 +1,6 @@
 """Value domain shared by the concrete (IEEE double) and the symbolic (exact rational /
 z3 real) interpreter: scalars, complex numbers, fixed-size matrices, objects."""
+from gm2v import fpset as _fp
 import math, copy
 from fractions import Fraction
 import z3
@@ -18,6 +19,11 @@ class Dim:
 class UnknownBool:
     """truth value of a comparison between dimensioned quantities: both outcomes are explored"""
     pass
+
+class FPUnknown(UnknownBool):
+    """undetermined comparison between sets of doubles: the interpreter follows both outcomes and restricts the operands accordingly (fpset.refine)"""
+    def __init__(self, op, a, b, negated=False):
+        self.op, self.a, self.b, self.negated = op, a, b, negated
 
 def _dim_of(x):
     if isinstance(x, Dim):
@@ -114,6 +120,8 @@ def _is_dim(x):
 
 def add(a, b):
     a, b = _b2i(a), _b2i(b)
+    if isinstance(a, _fp.FP) or isinstance(b, _fp.FP):
+        return _fp.add(a, b)
     if isinstance(a, Mat) or isinstance(b, Mat):
         return mat_binop(add, a, b)
     if (_is_dim(a) or _is_dim(b)) and not (isinstance(a, Cx) or isinstance(b, Cx)):
@@ -127,6 +135,8 @@ def add(a, b):
 
 def neg(a):
     a = _b2i(a)
+    if isinstance(a, _fp.FP):
+        return _fp.neg(a)
     if isinstance(a, Dim):
         return a
     if isinstance(a, Mat):
@@ -137,6 +147,8 @@ def neg(a):
 
 def sub(a, b):
     a, b = _b2i(a), _b2i(b)
+    if isinstance(a, _fp.FP) or isinstance(b, _fp.FP):
+        return _fp.sub(a, b)
     if isinstance(a, Mat) or isinstance(b, Mat):
         return mat_binop(sub, a, b)
     if (_is_dim(a) or _is_dim(b)) and not (isinstance(a, Cx) or isinstance(b, Cx)):
@@ -153,6 +165,8 @@ def is_zero_const(a):
 
 def mul(a, b):
     a, b = _b2i(a), _b2i(b)
+    if isinstance(a, _fp.FP) or isinstance(b, _fp.FP):
+        return _fp.mul(a, b)
     if isinstance(b, PermMat) and isinstance(a, Mat):
         # (M * P).col(j) == M.col(indices[j])
         idx = b.indices()
@@ -192,6 +206,8 @@ class DivHook:
 
 def div(a, b):
     a, b = _b2i(a), _b2i(b)
+    if isinstance(a, _fp.FP) or isinstance(b, _fp.FP):
+        return _fp.div(a, b)
     if isinstance(a, Mat):
         if isinstance(b, Mat):
             if a.kind == 'array' or b.kind == 'array':
@@ -250,6 +266,13 @@ def mod(a, b):
 
 def cmp(op, a, b):
     a, b = _b2i(a), _b2i(b)
+    if isinstance(a, _fp.FP) or isinstance(b, _fp.FP):
+        try:
+            return _fp.cmp(op, a, b)
+        except _fp.Undetermined:
+            if not _fp.FORK_UNDETERMINED:
+                raise
+            return FPUnknown(op, _fp.lift(a) if not isinstance(a, _fp.FP) else a, _fp.lift(b) if not isinstance(b, _fp.FP) else b)   # the interpreter explores both outcomes
     if _is_dim(a) or _is_dim(b):
         if isinstance(a, Dim) and isinstance(b, Dim) and a.d is not None and b.d is not None and a.d != b.d:
             raise DimError('comparison of quantities with mass dimensions %s and %s' % (a.d, b.d))
@@ -275,6 +298,8 @@ def cmp(op, a, b):
     return {'<': a < b, '>': a > b, '<=': a <= b, '>=': a >= b, '==': a == b, '!=': a != b}[op]
 
 def lnot(a):
+    if isinstance(a, FPUnknown):
+        return FPUnknown(a.op, a.a, a.b, not a.negated)
     if isinstance(a, UnknownBool):
         return UnknownBool()
     if is_sym(a):
